@@ -61,7 +61,11 @@ def render(program, engine_line=True):
   for n in program.get('noise', []):
     out.append(n)
   for name in program.get('ground', []):
-    out.append('@Ground(%s);' % name)
+    t = (program.get('ground_table') or {}).get(name)
+    if t:
+      out.append('@Ground(%s, "%s");' % (name, t))
+    else:
+      out.append('@Ground(%s);' % name)
   for name, d in sorted(program.get('recursive', {}).items()):
     if isinstance(d, dict):
       extra = ''
